@@ -452,6 +452,7 @@ func (reg *Reg) blobPutUploadChunked(ctx context.Context, r ref.Ref, d descripto
 	chunkURL := *putURL
 	retryLimit := 10 // TODO: pull limit from reghttp
 	retryCur := 0
+	noProgress := 0 // consecutive chunk requests that did not advance the upload offset
 	var err error
 
 	for !finalChunk || chunkStart < bufStart+int64(len(bufBytes)) {
@@ -547,11 +548,22 @@ func (reg *Reg) blobPutUploadChunked(ctx context.Context, r ref.Ref, d descripto
 					retryCur--
 				}
 			}
+			chunkPrev := chunkStart
 			rangeEnd, err := blobUploadCurBytes(httpResp)
 			if err == nil {
 				chunkStart = rangeEnd + 1
 			} else {
 				chunkStart += int64(chunkSize)
+			}
+			// limit how often a chunk is resent when the registry does not accept any data,
+			// whatever status it answers with
+			if chunkStart <= chunkPrev {
+				noProgress++
+				if noProgress > retryLimit {
+					return d, fmt.Errorf("failed to send blob (chunk), ref %s: upload is not making progress at offset %d: %w", r.CommonName(), chunkStart, reghttp.HTTPError(resp.HTTPResponse().StatusCode))
+				}
+			} else {
+				noProgress = 0
 			}
 			location := httpResp.Header.Get("Location")
 			if location != "" {
